@@ -145,7 +145,7 @@ class SimHelper:
         self.inbuf += data[:n]
         while b'\n' in self.inbuf:
             i = self.inbuf.index(b'\n')
-            line = bytes(self.inbuf[:i]).decode('ascii', 'replace')
+            line = bytes(self.inbuf[:i]).decode('utf-8', 'replace')
             del self.inbuf[: i + 1]
             self.lines.append((self.procs.loop.mono, line))
             self.procs.rec('proc-line', name=self.name, line=line if len(line) < 400 else line[:400] + '..')
